@@ -24,7 +24,7 @@ import (
 
 func TestVerifC01Config(t *testing.T) {
 	L := ev.Begin("C01", "c01-config", "exploration",
-		"every set of 1..3 instances of one service drawn from nodes {a, a.b, n1} x service ids {b.c, c, s1} (names with dots in both places: a + b.c and a.b + c read the same when joined by a dot; the same id on two nodes; two ids on one node), every assignment of {passing, critical} to their checks, through the real checksWithTagPrefix -> passingServices -> ServiceMonitor.makeConfig with the catalog answered by an in-process fake Consul; oracle: the targets of the generated route commands are exactly the addresses of the instances whose check passes. non-trivial = sets with both a passing and a failing instance")
+		"every set of 1..3 instances of one service drawn from nodes {a, a.b, n1} x service ids {b.c, c, s1} (names with dots in both places: a + b.c and a.b + c read the same when joined by a dot; the same id on two nodes; two ids on one node; the s1 instances write their routing tag with a blank in front), every assignment of {passing, critical} to their checks, through the real checksWithTagPrefix -> passingServices -> ServiceMonitor.makeConfig with the catalog answered by an in-process fake Consul; oracle: the targets of the generated route commands are exactly the addresses of the instances whose check passes. non-trivial = sets with both a passing and a failing instance")
 	type inst struct {
 		node, id, addr string
 		port           int
@@ -34,6 +34,14 @@ func TestVerifC01Config(t *testing.T) {
 		for ii, id := range []string{"b.c", "c", "s1"} {
 			all = append(all, inst{n, id, fmt.Sprintf("10.0.%d.%d", ni+1, ii+1), 8000 + ni*10 + ii})
 		}
+	}
+	// the instances with id s1 write their routing tag with a blank in front (tags are trimmed when the route
+	// command is built, so this is an advertisement like any other)
+	tagOf := func(in inst) string {
+		if in.id == "s1" {
+			return " urlprefix-/web"
+		}
+		return "urlprefix-/web"
 	}
 	var mu sync.Mutex
 	var catalog []inst
@@ -46,7 +54,7 @@ func TestVerifC01Config(t *testing.T) {
 		}
 		var out []map[string]interface{}
 		for _, in := range catalog {
-			out = append(out, map[string]interface{}{"Node": in.node, "Address": in.addr, "ServiceID": in.id, "ServiceName": "web", "ServiceAddress": "", "ServicePort": in.port, "ServiceTags": []string{"urlprefix-/web"}})
+			out = append(out, map[string]interface{}{"Node": in.node, "Address": in.addr, "ServiceID": in.id, "ServiceName": "web", "ServiceAddress": "", "ServicePort": in.port, "ServiceTags": []string{tagOf(in)}})
 		}
 		w.Header().Set("X-Consul-Index", "7")
 		json.NewEncoder(w).Encode(out)
@@ -89,7 +97,7 @@ func TestVerifC01Config(t *testing.T) {
 					want = append(want, fmt.Sprintf("%s:%d", in.addr, in.port))
 				}
 				desc = append(desc, fmt.Sprintf("node %q id %q %s -> %s:%d", in.node, in.id, st, in.addr, in.port))
-				checks = append(checks, &api.HealthCheck{Node: in.node, CheckID: "service:" + in.id, Status: st, ServiceID: in.id, ServiceName: "web", ServiceTags: []string{"urlprefix-/web"}})
+				checks = append(checks, &api.HealthCheck{Node: in.node, CheckID: "service:" + in.id, Status: st, ServiceID: in.id, ServiceName: "web", ServiceTags: []string{tagOf(in)}})
 			}
 			mu.Unlock()
 			sort.Strings(want)
